@@ -272,7 +272,9 @@ def families():
     F['setup_mesh'] = S.single(P, 0.5, power=_PW2, setup={'axial_mesh_size': 0.005})
     F['setup_plane'] = S.single(P, 0.5, power=_PW2, setup={'axial_plane': [0.05, 0.125, 0.33]})
     F['setup_dump'] = S.single(P, 0.5, power=_PW2, setup={'Dump': {'coolant': True, 'interval': 0.02}})
-    F['setup_cutoff'] = S.single(P, 0.5, power=_PW2, setup={'conv_approx': True, 'conv_approx_dz_cutoff': 0.002})
+    # a flow at which the cutoff decides (requirement 0.9 mm without, 3.7 mm with the low-flow wall treatment)
+    F['setup_cutoff'] = S.single(P, 0.05, power=_PW2, gap_model='no_flow',
+                                 setup={'conv_approx': True, 'conv_approx_dz_cutoff': 0.002})
     F['setup_tables'] = S.single(P, 0.5, power=_PW2, setup={'AssemblyTables': {
         't1': {'type': 'coolant_subchannel', 'assemblies': [1], 'axial_positions': [0.1, 0.3]}}})
     F['regions'] = S.single(S.design(2, regions=_REG2), 0.5, power=_PW2)
@@ -323,6 +325,8 @@ def families():
                               power={'rings': 3, 'cells': [0.0, 0.2, 0.4], 'q': 9000.0, 'pins': 'tilt',
                                      'duct': 'uniform', 'axial': ['up', 'down']},
                               setup={'axial_plane': [0.15, 0.27]})
+    # the low-flow wall treatment with its cutoff given in the input unit, at a flow where the cutoff decides
+    F['sw_cutoff'] = copy.deepcopy(F['setup_cutoff'])
     A = S.design(2, regions=_REG_NOEPS)
     B = S.design(2, ducts=2, oftf=0.06)
     bcs = [('A', {'flowrate': 0.5})] + [('B', {'outlet_temp': 773.15})] * 2 + [('B', {'flowrate': 0.45})] \
@@ -342,7 +346,7 @@ DATA_FAMILIES = ('full_a', 'full_b', 'core_min', 'setup', 'regions', 'regions_no
                  'range_flow', 'range_outlet', 'range_delta',
                  'setup_mesh', 'setup_plane', 'setup_dump', 'setup_cutoff', 'setup_tables',
                  'holes_flow', 'holes_outlet', 'holes_delta', 'spacer_k')
-SWEEP_FAMILIES = ('sw_single', 'sw_core7')
+SWEEP_FAMILIES = ('sw_single', 'sw_core7', 'sw_cutoff')
 QUICK_SWEEPS = (('cm', 'celsius', 'kg/s'), ('mm', 'fahrenheit', 'lb/min'), ('in', 'kelvin', 'lb/hr'),
                 ('ft', 'celsius', 'kg/s'), ('m', 'fahrenheit', 'kg/s'))
 _FAM = None
@@ -849,8 +853,8 @@ def alias_cases(tier):
 
 def sweep_cases(tier):
     if tier == 'quick':
-        return [{'mode': 'sweep', 'family': 'sw_single', 'length_unit': L, 'temp_unit': T, 'mfr_unit': M}
-                for (L, T, M) in QUICK_SWEEPS]
+        return [{'mode': 'sweep', 'family': f, 'length_unit': L, 'temp_unit': T, 'mfr_unit': M}
+                for f in ('sw_single', 'sw_cutoff') for (L, T, M) in QUICK_SWEEPS]
     return [{'mode': 'sweep', 'family': f, 'length_unit': L, 'temp_unit': T, 'mfr_unit': M}
             for f in SWEEP_FAMILIES for (L, T, M) in systems()]
 
